@@ -26,17 +26,22 @@ func register(p *Prop) { registry[p.ID] = p }
 
 var extras = map[string][]func(*Ctx){}
 
+// currentCtx is the context of the property being decided (engines that resolve callees on
+// demand, such as the linear executor, read it).
+var currentCtx *Ctx
+
 // registerExtra adds rules to a property (run after its main rule set).
 func registerExtra(id string, f func(*Ctx)) { extras[id] = append(extras[id], f) }
 
 // Get returns the checker for id (main rules followed by the registered extra rules).
 func Get(id string) *Prop {
 	p := registry[id]
-	if p == nil || len(extras[id]) == 0 {
+	if p == nil {
 		return p
 	}
 	q := *p
 	q.Run = func(c *Ctx) {
+		currentCtx = c
 		p.Run(c)
 		for _, f := range extras[id] {
 			f(c)
